@@ -158,11 +158,19 @@ Definition msg_value (st : status) : option hvalue :=
 Definition details_value (st : status) : option hvalue :=
   if is_nil (st_details st) then None else Some (enc false (st_details st)).
 
-(* add_header as a chain of inserts *)
+(* the last step of add_header since fix ed827503 (F-C04e): the details header is inserted when
+   the status has details and REMOVED when it has none *)
+Definition set_opt (h : hm) (name : hname) (o : option hvalue) : hm :=
+  match o with Some v => hm_insert h name v | None => hm_remove h name end.
+Lemma get_all_set_opt h n o k :
+  hm_get_all (set_opt h n o) k = if bytes_eqb n k then opt_list o else hm_get_all h k.
+Proof. destruct o as [v|]; [apply get_all_insert | apply get_all_remove]. Qed.
+
+(* add_header as a chain of inserts (and the one removal) *)
 Lemma add_header_chain st m0 cv :
   well_formed st -> code_to_hv (st_code st) = Some cv ->
   add_header st m0 =
-  Some (ins_opt (ins_opt (hm_insert (hm_extend m0 (sanitize (st_md st))) hdr_grpc_status cv)
+  Some (set_opt (ins_opt (hm_insert (hm_extend m0 (sanitize (st_md st))) hdr_grpc_status cv)
                          hdr_grpc_message (msg_value st))
                 hdr_grpc_status_details (details_value st)).
 Proof.
@@ -171,12 +179,14 @@ Proof.
   destruct (st_msg st); destruct (st_details st); reflexivity.
 Qed.
 
-(* the complete header map written by Status::add_header onto [m0], name by name *)
+(* the complete header map written by Status::add_header onto [m0], name by name.  Under
+   grpc-status-details-bin it holds the status's own details or nothing - never the metadata's
+   or m0's entry of that name (fix ed827503) *)
 Theorem add_header_wire st m0 :
   well_formed st ->
   exists h cv, add_header st m0 = Some h /\ code_to_hv (st_code st) = Some cv /\
   forall k, hm_get_all h k =
-    if set_by hdr_grpc_status_details (details_value st) k then opt_list (details_value st)
+    if bytes_eqb hdr_grpc_status_details k then opt_list (details_value st)
     else if set_by hdr_grpc_message (msg_value st) k then opt_list (msg_value st)
     else if bytes_eqb hdr_grpc_status k then [cv]
     else match (if is_reserved k then [] else hm_get_all (st_md st) k) with
@@ -187,24 +197,32 @@ Proof.
   intros WF. pose proof WF as (Hc & _ & _).
   destruct (code_roundtrip _ Hc) as [cv (Hcv & _ & _)].
   eexists. exists cv. split; [apply (add_header_chain st m0 cv WF Hcv)|]. split; [exact Hcv|].
-  intros k. rewrite !get_all_ins_opt, get_all_insert, get_all_extend_list, get_all_sanitize. reflexivity.
+  intros k. rewrite get_all_set_opt, get_all_ins_opt, get_all_insert, get_all_extend_list, get_all_sanitize.
+  reflexivity.
 Qed.
 
 Lemma reserved_status_name : is_reserved hdr_grpc_status = true. Proof. reflexivity. Qed.
 Lemma reserved_message_name : is_reserved hdr_grpc_message = true. Proof. reflexivity. Qed.
 Lemma not_reserved_details : is_reserved hdr_grpc_status_details = false. Proof. reflexivity. Qed.
 
+Lemma neq_eqb_false (n k : hname) : k <> n -> bytes_eqb n k = false.
+Proof.
+  intros H. destruct (bytes_eqb n k) eqn:E; [|reflexivity]. apply bytes_eqb_eq in E. congruence.
+Qed.
+
 (* user entries of a status reach the peer unchanged, whatever header map they are added to
-   (trailers: m0 = []; trailers-only: m0 = {content-type}); entries of m0 under other names stay *)
+   (trailers: m0 = []; trailers-only: m0 = {content-type}); entries of m0 under other names stay.
+   The name grpc-status-details-bin is tonic's on this path whether or not the status has
+   details (fix ed827503): what the wire holds under it is [add_header_wire]'s first line *)
 Theorem status_roundtrip_md st m0 :
   well_formed st ->
   exists h, add_header st m0 = Some h /\
-  forall k, is_reserved k = false -> (details_value st = None \/ k <> hdr_grpc_status_details) ->
+  forall k, is_reserved k = false -> k <> hdr_grpc_status_details ->
     hm_get_all (from_headers h) k = match hm_get_all (st_md st) k with [] => hm_get_all m0 k | l => l end.
 Proof.
   intros WF. destruct (add_header_wire st m0 WF) as (h & cv & Hh & _ & Hpt).
   exists h. split; [exact Hh|]. intros k Hk Hd. unfold from_headers. rewrite Hpt.
-  rewrite (set_by_false _ _ _ Hd).
+  rewrite (neq_eqb_false _ _ Hd).
   assert (M : set_by hdr_grpc_message (msg_value st) k = false).
   { destruct (msg_value st); [|reflexivity]. apply (reserved_neq _ _ reserved_message_name Hk). }
   rewrite M, (reserved_neq _ _ reserved_status_name Hk), Hk. reflexivity.
@@ -224,8 +242,8 @@ Theorem status_reserved st m0 :
 Proof.
   intros WF. destruct (add_header_wire st m0 WF) as (h & cv & Hh & Hcv & Hpt).
   exists h, cv. split; [exact Hh|]. split; [exact Hcv|]. intros k Hk. rewrite Hpt. unfold status_own.
-  assert (D : set_by hdr_grpc_status_details (details_value st) k = false).
-  { destruct (details_value st); [|reflexivity]. apply (not_reserved_neq _ _ not_reserved_details Hk). }
+  assert (D : bytes_eqb hdr_grpc_status_details k = false).
+  { apply (not_reserved_neq _ _ not_reserved_details Hk). }
   rewrite D, Hk. reflexivity.
 Qed.
 
@@ -708,7 +726,7 @@ Proof.
   intros WF. destruct (add_header_wire st m0 WF) as (h & cv & Hh & Hcv & Hpt).
   assert (GS : hm_get h hdr_grpc_status = Some cv).
   { unfold hm_get. rewrite Hpt.
-    rewrite (set_by_false hdr_grpc_status_details (details_value st) hdr_grpc_status) by (right; discriminate).
+    change (bytes_eqb hdr_grpc_status_details hdr_grpc_status) with false.
     assert (M : set_by hdr_grpc_message (msg_value st) hdr_grpc_status = false) by (destruct (msg_value st); reflexivity).
     rewrite M, bytes_eqb_refl. reflexivity. }
   assert (F : exists st', from_header_map h = Some st').
@@ -728,7 +746,7 @@ Proof.
     assert (K3 : bytes_eqb k hdr_grpc_status_details = false).
     { destruct (bytes_eqb k hdr_grpc_status_details) eqn:E; [|reflexivity]. apply bytes_eqb_eq in E. congruence. }
     rewrite K1, K2, K3. cbn [orb]. rewrite Hpt.
-    rewrite (set_by_false _ _ _ (or_intror Hd)).
+    rewrite (neq_eqb_false _ _ Hd).
     assert (M : set_by hdr_grpc_message (msg_value st) k = false).
     { destruct (msg_value st); [|reflexivity]. apply (reserved_neq _ _ reserved_message_name Hk). }
     rewrite M, (reserved_neq _ _ reserved_status_name Hk), Hk. reflexivity.
@@ -740,14 +758,41 @@ Proof.
     assert (K3 : bytes_eqb k hdr_grpc_status_details = false).
     { rewrite bytes_eqb_sym. apply (not_reserved_neq _ _ not_reserved_details Hk). }
     rewrite K1, K2, K3. cbn [orb]. rewrite Hpt.
-    assert (D : set_by hdr_grpc_status_details (details_value st) k = false).
-    { destruct (details_value st); [|reflexivity]. apply (not_reserved_neq _ _ not_reserved_details Hk). }
+    assert (D : bytes_eqb hdr_grpc_status_details k = false).
+    { apply (not_reserved_neq _ _ not_reserved_details Hk). }
     assert (M : set_by hdr_grpc_message (msg_value st) k = false).
     { apply set_by_false. now right. }
     rewrite D, M. rewrite bytes_eqb_sym in K1. rewrite K1, Hk. reflexivity.
   - rewrite MD, bytes_eqb_refl. reflexivity.
   - rewrite MD, bytes_eqb_refl. now rewrite orb_true_r.
   - rewrite MD, bytes_eqb_refl. now rewrite !orb_true_r.
+Qed.
+
+(* ... and the DETAILS the peer reads are the status's own, whatever the custom metadata and the
+   base map hold under grpc-status-details-bin (F-C04e, fix ed827503: before it a status without
+   details was read back with the first metadata value of that name as its details), and whatever
+   becomes of the message *)
+Theorem status_details_received st m0 :
+  well_formed st ->
+  exists h st', add_header st m0 = Some h /\ from_header_map h = Some st' /\
+    st_details st' = st_details st.
+Proof.
+  intros WF. destruct (add_header_wire st m0 WF) as (h & cv & Hh & Hcv & Hpt).
+  pose proof WF as (_ & _ & Hd).
+  assert (GS : hm_get h hdr_grpc_status = Some cv).
+  { unfold hm_get. rewrite Hpt.
+    change (bytes_eqb hdr_grpc_status_details hdr_grpc_status) with false.
+    assert (M : set_by hdr_grpc_message (msg_value st) hdr_grpc_status = false) by (destruct (msg_value st); reflexivity).
+    rewrite M, bytes_eqb_refl. reflexivity. }
+  assert (GD : hm_get h hdr_grpc_status_details =
+               match st_details st with [] => None | _ => Some (enc false (st_details st)) end).
+  { unfold hm_get. rewrite Hpt, bytes_eqb_refl. unfold details_value. now destruct (st_details st). }
+  assert (Ddet : dec (enc false (st_details st)) = Some (st_details st)) by now apply dec_enc.
+  exists h. unfold from_header_map. rewrite GS, GD.
+  destruct (hm_get h hdr_grpc_message) as [hmsg|];
+    [destruct (utf8_valid (pct_decode hmsg))|];
+    (destruct (st_details st) as [|d0 ds] eqn:E; [|rewrite Ddet]);
+    eexists; (split; [exact Hh|]); (split; [reflexivity|]); reflexivity.
 Qed.
 
 (* ------------------------------------------------------------------ merge *)
